@@ -145,13 +145,13 @@ Definition component (s : str) : option (option N * str) :=
 
 (** [opt(preceded(literal("."), component))] *)
 Definition opt_dot_component (s : str) : option (option N) * str :=
-  match s with
-  | 46 :: r =>
+  match lit1 46 s with
+  | Some r =>
     match component r with
     | Some (c, r') => (Some c, r')
     | None => (None, s)
     end
-  | _ => (None, s)
+  | None => (None, s)
   end.
 
 Definition opt_flatten {A} (o : option (option A)) : option A :=
@@ -161,7 +161,7 @@ Definition opt_and {A B} (a : option A) (b : option B) : option B :=
 
 (** [partial_version()] (after the repair: components after a wildcard are wildcards). *)
 Definition partial_version (s : str) : option (partial_t * str) :=
-  let s1 := match s with 118 :: r => r | _ => s end in
+  let s1 := opt_lit1 118 s in
   let s2 := space0 s1 in
   match component s2 with
   | None => None
@@ -178,14 +178,12 @@ Definition partial_version (s : str) : option (partial_t * str) :=
 
 (** [operation()]: [alt((">=", ">", "=", "<=", "<"))]. *)
 Definition operation_p (s : str) : option (operation * str) :=
-  match s with
-  | 62 :: 61 :: r => Some (OpGTE, r)
-  | 62 :: r => Some (OpGT, r)
-  | 61 :: r => Some (OpExact, r)
-  | 60 :: 61 :: r => Some (OpLTE, r)
-  | 60 :: r => Some (OpLT, r)
-  | _ => None
-  end.
+  match lit [62; 61] s with Some r => Some (OpGTE, r) | None =>
+  match lit1 62 s with Some r => Some (OpGT, r) | None =>
+  match lit1 61 s with Some r => Some (OpExact, r) | None =>
+  match lit [60; 61] s with Some r => Some (OpLTE, r) | None =>
+  match lit1 60 s with Some r => Some (OpLT, r) | None => None
+  end end end end end.
 
 Definition primitive_p (s : str) : option (option boundset * str) :=
   match operation_p s with
@@ -205,25 +203,25 @@ Definition partial_p (s : str) : option (option boundset * str) :=
 
 (** [tilde_gt()]: "~", [space0], [opt(">")], [space0]. *)
 Definition tilde_p (s : str) : option (option boundset * str) :=
-  match s with
-  | 126 :: r =>
+  match lit1 126 s with
+  | Some r =>
     let r1 := space0 r in
-    let '(gt, r2) := match r1 with 62 :: r' => (true, r') | _ => (false, r1) end in
+    let '(gt, r2) := match lit1 62 r1 with Some r' => (true, r') | None => (false, r1) end in
     match partial_version (space0 r2) with
     | Some (p, r') => Some (tilde_tbl gt p, r')
     | None => None
     end
-  | _ => None
+  | None => None
   end.
 
 Definition caret_p (s : str) : option (option boundset * str) :=
-  match s with
-  | 94 :: r =>
+  match lit1 94 s with
+  | Some r =>
     match partial_version (space0 r) with
     | Some (p, r') => Some (caret_tbl p, r')
     | None => None
     end
-  | _ => None
+  | None => None
   end.
 
 (** [hyphen()]: [opt(partial_version)], [space1], "-", [space1], [partial_version]. *)
@@ -233,8 +231,8 @@ Definition hyphen_p (s : str) : option (option boundset * str) :=
   match space1 s1 with
   | None => None
   | Some s2 =>
-    match s2 with
-    | 45 :: s3 =>
+    match lit1 45 s2 with
+    | Some s3 =>
       match space1 s3 with
       | None => None
       | Some s4 =>
@@ -243,7 +241,7 @@ Definition hyphen_p (s : str) : option (option boundset * str) :=
         | None => None
         end
       end
-    | _ => None
+    | None => None
     end
   end.
 
@@ -251,7 +249,7 @@ Definition hyphen_p (s : str) : option (option boundset * str) :=
 Definition at_term (s : str) : bool :=
   match s with
   | [] => true
-  | c :: r => is_space c || ((c =? 124) && match r with d :: _ => d =? 124 | [] => false end)
+  | c :: r => is_space c || match lit [124; 124] s with Some _ => true | None => false end
   end.
 
 (** [garbage()]: [repeat_till(0.., any, ...)] consumes scalars up to the terminator. *)
@@ -309,9 +307,9 @@ Definition range_p (s : str) : option (list boundset * str) :=
 
 (** [logical_or()]: [delimited(space0, literal("||"), space0)]. *)
 Definition logical_or (s : str) : option str :=
-  match space0 s with
-  | 124 :: 124 :: r => Some (space0 r)
-  | _ => None
+  match lit [124; 124] (space0 s) with
+  | Some r => Some (space0 r)
+  | None => None
   end.
 
 (** [separated(0.., range, logical_or)] + flatten. *)
